@@ -52,10 +52,18 @@ pub async fn run_case(backend: &str, seed: u64, rep: &mut Report, corr: &mut Cor
     let mut rng = Rng::new(seed);
     let mut toks = Tokens::default();
     // pre-history: none / one device / all devices edited (no conflict, soft conflict) / server ahead / stale ancestor
-    let pre = *rng.pick(&[0u64, 1, 2, 2, 3, 3, 3, 4, 4, 4, 5, 5]);
+    let pre = *rng.pick(&[0u64, 1, 2, 2, 3, 3, 3, 4, 4, 4, 5, 5, 6, 6]);
     let n_dev = if pre == 4 { 3 } else { rng.range(2, 3) as usize };
     let w = World::new(n_dev, backend).await?;
     let mut script: Vec<String> = vec![format!("world devices={n_dev} backend={backend}")];
+    // pre-history 6: the FILE log is the only log in which two devices both made events (each attaches an external
+    // file in a folder of its own): one folder per device, made before the devices diverge
+    let mut own_folder: Vec<sos_core::VaultId> = vec![];
+    if pre == 6 {
+        let mut a = w.devices[0].lock().await;
+        for k in 0..n_dev { own_folder.push(*a.create_folder(sos_client_storage::NewFolderOptions::new(format!("folder-of-d{k}"))).await?.folder.id()); }
+        rep.count("pre-history:files-only-conflict");
+    }
     // shared pool of secrets created before divergence
     let mut pool: Vec<SecretId> = vec![];
     {
@@ -67,7 +75,7 @@ pub async fn run_case(backend: &str, seed: u64, rep: &mut Report, corr: &mut Cor
         }
     }
     // half of the cases start with a shared, non-empty FILE log (an external file made before the devices diverge)
-    let with_files = rng.chance(1, 2);
+    let with_files = pre == 6 || rng.chance(1, 2);
     let mut file_no = 0u32;
     if with_files {
         let mut a = w.devices[0].lock().await;
@@ -111,8 +119,17 @@ pub async fn run_case(backend: &str, seed: u64, rep: &mut Report, corr: &mut Cor
         rep.count("pre-history:stale-ancestor");
     }
     for k in 0..n_dev {
-        let n_edits = if pre == 4 { rng.range(0, 1) } else { rng.range(0, 4) };
+        let n_edits = if pre == 4 { rng.range(0, 1) } else if pre == 6 { 0 } else { rng.range(0, 4) };
         let before = w.device_logs(k).await;
+        if pre == 6 && k < 2 {
+            let mut a = w.devices[k].lock().await;
+            let p = w.tmp.path().join(format!("ext-{file_no}.bin")); file_no += 1;
+            std::fs::write(&p, format!("external file {seed} {file_no} of d{k} in its own folder").as_bytes())?;
+            let secret: sos_vault::secret::Secret = p.try_into()?;
+            let meta = sos_vault::secret::SecretMeta::new(format!("file-d{k}-own-folder"), secret.kind());
+            let r = a.create_secret(meta, secret, sos_client_storage::AccessOptions { folder: Some(own_folder[k]), ..Default::default() }).await;
+            script.push(format!("edit d{k} external-file in its own folder -> {}", r.is_ok()));
+        }
         for _ in 0..n_edits {
             let mut a = w.devices[k].lock().await;
             match rng.below(if with_files { 8 } else { 5 }) {
